@@ -255,10 +255,35 @@ def wrun (st : Store) : List WEvent → Store
 /-! ### The analysis database is keyed by `source_key_for_uri`, not by URI
 
 `Doc.analysed` above is the text a URI last handed to `project.set_source_text(key, ·)`.  The
-project stores it under `source_key_for_uri(uri)` (`state/path.rs`): `SourceKey::Path` of
-`uri_to_path(uri)` — `Url::to_file_path`, which looks at the path only, not at the scheme, the
-query or the fragment — else `SourceKey::Virtual(uri)`.  `key u` is the number of the key of URI
-number `u`; what the analysis reads for `u` is `db (key u)`. -/
+project stores it under `source_key_for_uri(uri)` (`state/path.rs`), the documents are stored under
+the URI.  `key u` is the number of the key of URI number `u`; what the analysis reads for `u` is
+`db (key u)`. -/
+
+/-- The parts of a `Url` that `source_key_for_uri` looks at.  `path` is the decoded path
+(`Url::to_file_path`); the authority is not modelled (two spellings of one `file:` URI — percent
+encoding, a `localhost` host — are one `Uri` here). -/
+structure Uri where
+  scheme : String
+  path : String
+  query : Option String
+  fragment : Option String
+deriving Repr, DecidableEq
+
+/-- `trust_hir::SourceKey`. -/
+inductive SourceKey where
+  | path (p : String)
+  | virtual (u : Uri)
+deriving Repr, DecidableEq
+
+/-- `source_key_for_uri`: `SourceKey::Path(uri_to_path(uri))` for a `file:` URI without query and
+fragment (`uri_to_path` answers `None` for every other scheme), else
+`SourceKey::Virtual(uri.to_string())`. -/
+def sourceKey (u : Uri) : SourceKey :=
+  if u.scheme = "file" ∧ u.query = none ∧ u.fragment = none then .path u.path else .virtual u
+
+/-- `source_key_for_uri` before the repair (defect C14-uri-scheme-shares-path-key): the path alone,
+whatever the scheme, the query and the fragment (absolute paths). -/
+def sourceKeyOld (u : Uri) : SourceKey := .path u.path
 
 /-- `Project` sources by key number. -/
 def Db := Nat → Option (List Char)
